@@ -181,6 +181,9 @@ def _explore(first):
     out = [((first,), o1)]
     if depth > 1 and (_STATE['tier'] != 'quick' or first in _STATE['quick_firsts']):
         out += snap.dfs(apply, len(_STATE['ops']), depth - 1, (first,), _allowed, ctx)
+    elif depth > 1:
+        # every operation is at least repeated once: a rejected keyword set must stay rejected, an accepted one memoised
+        out += snap.dfs(apply, len(_STATE['ops']), 1, (first,), lambda prefix: [first], ctx)
     return out
 
 
